@@ -361,7 +361,7 @@ def run(ctx):
                         "the hook events are logged inside the critical section they describe, so the log order is a linearisation (notes/C10.md)",
                         "lock-free loads of the atomic flags are modelled as returning any value held between the pre-read and post-read hook events",
                         "OS scheduling plus seeded yields only samples interleavings; the theorems cover all of them for the model"]
-    per_cell = 1 if quick else 6
+    per_cell = 2 if quick else 8
     sess = make_sessions(ctx, binary, net, per_cell, range(1, 9))
     t0 = time.time()
     run_sessions(sess, 4 if quick else 6)
